@@ -405,7 +405,30 @@ pub fn judge_c17(r: &Resp, p: &Probe) -> Judge {
         p.label("status 0x0003-0x00ff (not asserted)");
     }
 
-    for (which, resp) in [("built in memory", &in_memory), ("parsed from reference encoding", &parsed)] {
+    // a third object: the response as an application keeps it between polls - built earlier with the
+    // OPPOSITE state and reasons, then brought up to date with add() (which replaces by name)
+    let updated = {
+        let mut stale = r.clone();
+        if r.state.is_some() {
+            stale.state = Some(if stopped { CValue::Enum(3) } else { CValue::Enum(5) });
+        }
+        if r.reasons.is_some() {
+            stale.reasons = Some(vec![if harmless { "media-jam".to_string() } else { "none".to_string() }]);
+        }
+        let mut msg = resp_model(&stale).build();
+        if r.has_printer_group {
+            if let Some(st) = &r.state {
+                msg.attributes_mut().add(DelimiterTag::PrinterAttributes, IppAttribute::new("printer-state", to_ipp(st)));
+            }
+            if let Some(rs) = &r.reasons {
+                let l: Vec<IppValue> = rs.iter().map(|k| IppValue::Keyword(k.clone())).collect();
+                msg.attributes_mut().add(DelimiterTag::PrinterAttributes, IppAttribute::new("printer-state-reasons", if l.len() == 1 { l[0].clone() } else { IppValue::Array(l) }));
+            }
+            p.label("response brought up to date with add()");
+        }
+        msg
+    };
+    for (which, resp) in [("built in memory", &in_memory), ("parsed from reference encoding", &parsed), ("built earlier with the opposite state and reasons, then updated with add()", &updated)] {
         let got = catch(|| ipp::util::is_printer_ready(resp)).map_err(|e| Fail::new(format!("C17/{}", panic_sig(&e)), format!("is_printer_ready panicked: {e}")))?;
         let describe = || format!("{which}: response {}", resp_json(r));
         if r.status > 0xff {
